@@ -201,8 +201,12 @@ def norm_case(case):
     c = {'mode': case['mode'], 'setting': case['setting'], 'S': case['S']}
     if c['mode'] == 'include':
         c['ext'] = case.get('ext', '.lua')
+        if case.get('bare'):
+            c['bare'] = True
     else:
         c['nested'] = bool(case.get('nested', False))
+        if case.get('form', 'paren') != 'paren':
+            c['form'] = case['form']
     return c
 
 
@@ -322,15 +326,26 @@ def _run_include(lay, case, S):
     target = inc_target(base, S, case['ext'])
     outside = not contains(roots[0], target)
     err, result = None, b''
-    with FsGuard() as guard:
-        try:
-            g = pfile.from_file(cart)
-            result = b''.join(g.lua.to_lines())
-        except Exception as e:      # failing is always acceptable; judged below
-            err = e
+    cwd = os.getcwd()
+    name = cart
+    if case.get('bare'):
+        # the cart named the way a user in its directory would: a bare relative file name
+        os.chdir(os.path.dirname(cart))
+        name = os.path.basename(cart)
+    try:
+        with FsGuard() as guard:
+            try:
+                g = pfile.from_file(name)
+                result = b''.join(g.lua.to_lines())
+            except Exception as e:      # failing is always acceptable; judged below
+                err = e
+    finally:
+        os.chdir(cwd)
     labels = _judge(lay, case, guard, err is not None, err, result, roots, {cart}, outside,
                     'it resolves to %s, outside the include root %s' % (lay.tpl(target), lay.tpl(roots[0])))
     labels += ['mode_include', 'setting_' + case['setting'], 'ext_' + case['ext']]
+    if case.get('bare'):
+        labels.append('bare_relative_cart_name')
     if outside:
         labels.append('target_outside')
     return labels
@@ -342,7 +357,14 @@ def _run_require(lay, case, S):
     reqfile, _reqdir, roots = req_geometry(lay, case)
     main_lua = lay.p('work/proj/main.lua')
     out = lay.p('build/out.p8')
-    line = b'local r=require("' + S.encode('utf-8') + b'")\n'
+    form = case.get('form', 'paren')
+    if form == 'paren':
+        line = b'local r=require("' + S.encode('utf-8') + b'")\n'
+    elif form == 'string':
+        # Lua's call-with-a-string-literal syntax; whatever picotool does with it, it must not open outside files
+        line = b'local r=require "' + S.encode('utf-8') + b'"\n'
+    else:
+        line = b"print(require '" + S.encode('utf-8') + b"')\n"
     exact = {main_lua, out}
     if case['nested']:
         hp = lay.p(hopfile)
@@ -378,6 +400,8 @@ def _run_require(lay, case, S):
     labels = _judge(lay, case, guard, failed, err, result, roots, exact, must_fail_require(S),
                     'the README promises that a require() string containing "./" or "../" or starting with "/" is an error')
     labels += ['mode_require', 'setting_' + case['setting']]
+    if case.get('form', 'paren') != 'paren':
+        labels.append('require_string_call_form')
     if case['nested']:
         labels.append('nested')
     return labels
@@ -472,6 +496,11 @@ def include_cases(lay, maxseg):
         for S in explicit_strings(lay, [base, lay.p(INC_ROOT[setting])], EXTS):
             for ext in EXTS:
                 yield {'mode': 'include', 'setting': setting, 'S': S, 'ext': ext}
+                if setting == 'own' and ext != '.p8.png':
+                    yield {'mode': 'include', 'setting': setting, 'S': S, 'ext': ext, 'bare': True}
+        if setting == 'own':
+            for S in enum_strings(2, SIB[setting]):
+                yield {'mode': 'include', 'setting': setting, 'S': S, 'ext': '.lua', 'bare': True}
 
 
 def require_cases(lay, maxseg):
@@ -490,6 +519,12 @@ def require_cases(lay, maxseg):
                     yield dict(probe, S='ok;' + S)
             for S in ('x;..', 'ok;..', ';', 'a;b', ';/', 'ok;lib', 'nolib;lib/ok', ';ok', 'ok;'):
                 yield dict(probe, S=S)
+            for form in ('string', 'string_sq'):
+                for S in explicit_strings(lay, roots, ['.lua', '/init.lua']):
+                    if '"' not in S and "'" not in S:
+                        yield dict(probe, S=S, form=form)
+                for S in enum_strings(2):
+                    yield dict(probe, S=S, form=form)
 
 
 def _run_space(ctx, gen, maxseg):
@@ -568,6 +603,7 @@ def replay(case):
 def vacuity(total, tier):
     msgs = []
     need = ['dotdot', 'absolute', 'sibling', 'inside_ok', 'rejected', 'nested', 'mode_include', 'mode_require',
+            'bare_relative_cart_name', 'require_string_call_form',
             'target_outside', 'failed_other']
     need += ['setting_' + s for s in INC_SETTINGS + REQ_ORDER]
     need += ['inside_ok:' + s for s in INC_SETTINGS + REQ_ORDER]
